@@ -91,8 +91,7 @@ func (e *Encoder) writeMap(data interface{}) (int, error) {
 	// a nil or empty map is written as null and takes no ref ordinal
 	if uv := UnpackPtrValue(vv); (uv.Kind() == reflect.Ptr && !uv.Elem().IsValid()) ||
 		(uv.Kind() == reflect.Map && uv.Len() == 0) {
-		e.writeBT(_nilTag)
-		return 0, nil
+		return e.writeBT(_nilTag)
 	}
 
 	// check ref
@@ -105,11 +104,16 @@ func (e *Encoder) writeMap(data interface{}) (int, error) {
 	typ := vv.Type()
 
 	mapName, ok := e.nameMap[typ.Name()]
+	var err error
 	if ok {
-		e.writeBT(_mapTypedTag)
-		e.writeString(mapName)
+		if _, err = e.writeBT(_mapTypedTag); err == nil {
+			_, err = e.writeString(mapName)
+		}
 	} else {
-		e.writeBT(_mapUntypedTag)
+		_, err = e.writeBT(_mapUntypedTag)
+	}
+	if err != nil {
+		return 0, err
 	}
 
 	count := 0
@@ -134,7 +138,9 @@ func (e *Encoder) writeMap(data interface{}) (int, error) {
 		count = vv.NumField()
 		for i := 0; i < count; i++ {
 			f := vv.Field(i)
-			e.writeString(f.Type().Name())
+			if _, err := e.writeString(f.Type().Name()); err != nil {
+				return 0, err
+			}
 			_, err := e.WriteData(f.Interface())
 			if err != nil {
 				return 0, err
@@ -142,7 +148,9 @@ func (e *Encoder) writeMap(data interface{}) (int, error) {
 		}
 	}
 
-	e.writeBT(_endFlag)
+	if _, err = e.writeBT(_endFlag); err != nil {
+		return 0, err
+	}
 
 	return count, nil
 }
